@@ -704,12 +704,21 @@ def translate_merge(srcdir):
         raise Untranslatable("rrbase: _invalidates_cache not found")
     db = strip_doc(dec.body)
     okd = (len(db) == 2 and isinstance(db[0], ast.FunctionDef) and u(db[1]) == "return inner_func" and db[0].name == "inner_func"
-           and [u(x) for x in db[0].decorator_list] == ["wraps(f)"]
-           and [u(x) for x in strip_doc(db[0].body)] == ["rv = f(self, *args, **kwargs)", "self._invalidate_cache()", "return rv"])
+           and [u(x) for x in db[0].decorator_list] == ["wraps(f)"])
     if not okd:
         raise U(dec, "_invalidates_cache")
+    inner = [u(x) for x in strip_doc(db[0].body)]
+    if inner == ["rv = f(self, *args, **kwargs)", "self._invalidate_cache()", "return rv"]:
+        flags = "callsWrapped := true, thenInvalidates := true, returnsRv := true"
+    elif inner == ["self._invalidate_cache()", "return f(self, *args, **kwargs)"]:
+        # the wrapped method runs AFTER the invalidation: translated, and the obligation says why it is wrong
+        flags = "callsWrapped := true, thenInvalidates := false, returnsRv := true, invalidatesBefore := true"
+    elif inner == ["return f(self, *args, **kwargs)"]:
+        flags = "callsWrapped := true, thenInvalidates := false, returnsRv := true"
+    else:
+        raise U(db[0], "_invalidates_cache: wrapper body")
     out.append("/-- translated from `rrule.py:_invalidates_cache` -/\ndef invalidatesDecorator : MergePy.DecoratorProg :=\n"
-               "  { callsWrapped := true, thenInvalidates := true, returnsRv := true }\n")
+               "  { %s }\n" % flags)
     fps["_invalidates_cache"] = fp(dec)
     muts = []
     for name in ("rrule", "rdate", "exrule", "exdate"):
